@@ -13,7 +13,9 @@
 // returns a new channel), invalidation pushes and messages in between, then release, Close or a kill.
 // Oracle: every returned channel is closed exactly once (a second close would panic the client), carries at most one
 // error and only when the connection failed; each hook set's invalidation callback saw exactly the pushes that
-// arrived while it was installed (+ nil if it was installed when the connection was lost) — checked directly against
+// arrived while it was installed (+ nil if it was installed when the connection was lost); half of the cases also set
+// ClientOption.OnInvalidations ("global"): BOTH callbacks are on the dedicated connection, the client-wide one must see
+// every push sent on it whatever hook set is installed (+ nil when it is lost) — checked directly against
 // the pushes the observer had the server send, op by op; OnMessage likewise (through the model).
 package main
 
@@ -48,6 +50,7 @@ type Case struct {
 	Ops     []Op   `json:"ops"`
 	End     string `json:"end"`               // close | kill | release
 	NoCache bool   `json:"nocache,omitempty"` // ClientOption.DisableCache: no client-side cache, the callbacks work all the same
+	Global  bool   `json:"global,omitempty"`  // kind hooks: ClientOption.OnInvalidations is set as well: both callbacks on the dedicated connection
 }
 
 var keys = []string{"k1", "k2", "k3", "k4"}
@@ -81,6 +84,7 @@ func genCase(r *gen.Rand, i int) any {
 		return c
 	}
 	c.End = gen.Pick(r, []string{"release", "close", "kill"})
+	c.Global = r.Chance(1, 2)
 	for j := 0; j < n; j++ {
 		switch x := r.Intn(10); {
 		case x < 2:
@@ -305,9 +309,24 @@ func runHooks(c Case) (res obs.Result) {
 	if c.NoCache {
 		res.Kind += "-nocache"
 	}
+	if c.Global {
+		res.Kind += "-global"
+	}
 	s := fakeredis.New()
-	cl, err := rueidis.NewClient(rueidis.ClientOption{InitAddress: []string{"127.0.0.1:6379"}, DialCtxFn: s.Dial, ForceSingleClient: true,
-		DisableRetry: true, DisableCache: c.NoCache, PipelineMultiplex: -1, ReadBufferEachConn: 4096, WriteBufferEachConn: 4096, RingScaleEachConn: 6})
+	// the client-wide callback (every connection of the client calls it; pushes are only ever sent on the dedicated one)
+	var gmu sync.Mutex
+	var glob []invalRec
+	opt := rueidis.ClientOption{InitAddress: []string{"127.0.0.1:6379"}, DialCtxFn: s.Dial, ForceSingleClient: true,
+		DisableRetry: true, DisableCache: c.NoCache, PipelineMultiplex: -1, ReadBufferEachConn: 4096, WriteBufferEachConn: 4096, RingScaleEachConn: 6}
+	if c.Global {
+		opt.OnInvalidations = func(ms []rueidis.RedisMessage) {
+			ks, null := msgKeys(ms)
+			gmu.Lock()
+			glob = append(glob, invalRec{keys: ks, null: null})
+			gmu.Unlock()
+		}
+	}
+	cl, err := rueidis.NewClient(opt)
 	if err != nil {
 		res.Oracle = "harness: " + err.Error()
 		return
@@ -461,6 +480,37 @@ func runHooks(c Case) (res obs.Result) {
 			return len(last.inval) > 0 && last.inval[len(last.inval)-1].null
 		})
 	}
+	// the client-wide callback: every push sent on the dedicated connection, whatever hook set was installed, then one
+	// nil once that connection is lost (read before the client is closed: the other connections are still up)
+	var wantGlob []invalRec
+	for _, op := range c.Ops {
+		if op.T == "inject" {
+			wantGlob = append(wantGlob, invalRec{keys: op.Keys, null: op.Keys == nil})
+		}
+	}
+	if c.End == "kill" || c.End == "close" {
+		wantGlob = append(wantGlob, invalRec{null: true})
+	}
+	globBad := ""
+	var gotGlob []invalRec
+	if c.Global {
+		psx.Await(func() bool {
+			gmu.Lock()
+			defer gmu.Unlock()
+			return len(glob) >= len(wantGlob)
+		})
+		gmu.Lock()
+		gotGlob = append([]invalRec(nil), glob...)
+		gmu.Unlock()
+		same := len(gotGlob) == len(wantGlob)
+		for i := 0; same && i < len(wantGlob); i++ {
+			same = gotGlob[i].eq(wantGlob[i])
+		}
+		if !same {
+			globBad = fmt.Sprintf("ClientOption.OnInvalidations (set together with the dedicated client's hook sets; end = %s, cache disabled = %v) saw %s, expected %s: every invalidate push the server sent on the dedicated connection%s",
+				c.End, c.NoCache, invalLog(gotGlob), invalLog(wantGlob), map[bool]string{true: ", then nil for the lost connection", false: ""}[c.End != "release"])
+		}
+	}
 	defer cl.Close()
 	// oracle on errors: only the hook set installed when the connection failed may get one
 	mu.Lock()
@@ -532,7 +582,13 @@ func runHooks(c Case) (res obs.Result) {
 			obs.ListOf(h.msgs, func(b string) string { return obs.App("mkMsg", voc.B(""), voc.B("hc"), voc.B(b)) })))
 	}
 	mu.Unlock()
-	res.Coq = obs.App("CInval", "false", obs.List(mops), "[]", obs.List(seen))
+	if globBad != "" {
+		if len(bad) == 0 {
+			invalBad = true
+		}
+		bad = append(bad, globBad)
+	}
+	res.Coq = obs.App("CInval", obs.Bool(c.Global), obs.List(mops), obs.ListOf(gotGlob, func(r invalRec) string { return keysCoq(r.keys, r.null) }), obs.List(seen))
 	res.Sig = fmt.Sprintf("%+v", c)
 	res.Nontrivial = len(hooks) > 0
 	res.Obs = map[string]any{"hook_sets": len(hooks), "callbacks": tot}
